@@ -342,7 +342,7 @@ GenChoices(m0, cs, i, rest) ==
 RECURSIVE Lin(_, _, _, _)
 Lin(coef, vals, i, acc) ==
   IF i > Len(vals) THEN acc
-  ELSE Lin(coef, vals, i + 1, Add32(acc, Mul32(IF i <= Len(coef) THEN coef[i] ELSE 1, IF vals[i].t = "int" THEN vals[i].v ELSE 0)))
+  ELSE Lin(coef, vals, i + 1, Add32(acc, Mul32(IF i <= Len(coef) THEN coef[i] ELSE 1, IF vals[i].t = "int" THEN vals[i].v ELSE IF vals[i].t = "bool" /\ vals[i].v THEN 1 ELSE 0)))
 ExtCall(m, s) ==
   LET x == Prog.externs[s.f]
       vals == [i \in 1..Len(s.args) |-> Eval(m, s.args[i])]
